@@ -12,7 +12,7 @@ import (
 func init() {
 	register(&propCheck{
 		id:   "C19",
-		pkgs: []string{"cue", "cue/cuecontext", "encoding/json", "encoding/yaml"},
+		pkgs: []string{"cue", "cue/cuecontext", "encoding/json", "encoding/yaml", "internal/core/convert"},
 		run:  checkC19,
 		about: "C19 (values are immutable under concurrent use): decides (a) guarded-by for the state shared by a runtime: runtime.labelMap/labels under runtime.mutex, index.imports/importsByBuild/nextUniqueID and Runtime.loaded under index.lock (reads may hold the read lock), and that an insertion made under the write lock after an optimistic read re-checks under that lock (double-checked interning); " +
 			"(b) in the import closure of cue, cue/cuecontext, encoding/json and encoding/yaml every package-level variable written outside init is a sync/atomic type, guarded per (a), or a reviewed exception; (c) the caches are concurrency-safe types, the long-lived shared structs hold no *adt.OpContext or sync.Pool, and values published through the sync.Map caches are written only by their constructors; " +
@@ -30,6 +30,7 @@ func checkC19(c *Ctx) {
 	checkC19CopyOnWrite(c)
 	checkC19ValueAppend(c)
 	checkC19LazyFinalize(c)
+	checkC19AssertedVertexNotWritten(c)
 	c.checkLockPairing("locks.paired", rtP, adtP)
 	c.checkFieldWriters("ownership.field-writers", rtP, "index", map[string][]string{
 		"imports": {"(*Runtime).AddInst", "(*Runtime).LoadBuiltin", "newIndex"}, "importsByBuild": {"(*Runtime).AddInst", "(*Runtime).LoadBuiltin", "newIndex"},
